@@ -20,6 +20,8 @@ def run(ctx):
     formula.r_diag(ctx)
     nl = formula.r_one_and_lmidom(ctx)
     formula.r_statpair(ctx)
+    from . import genprog
+    genprog.r_generators(ctx, {"emit"})    # the generators unrolled: one condition per sample / admissible pair, whatever the labels
     formula.r_domain(ctx)
     formula.r_regen(ctx)
     formula.r_params(ctx)
